@@ -15,6 +15,10 @@ import sys
 import time
 from concurrent.futures import ThreadPoolExecutor
 
+# the oracles run one worker process per core: numpy's BLAS must not start a thread team in each of them
+for _v in ("OPENBLAS_NUM_THREADS", "MKL_NUM_THREADS", "NUMEXPR_NUM_THREADS", "OMP_NUM_THREADS"):
+    os.environ.setdefault(_v, "1")
+
 VERIF = os.path.dirname(os.path.dirname(os.path.abspath(__file__)))
 REPO = os.environ.get("VERIF_REPO", "/repo")
 NCPU = int(os.environ.get("VERIF_JOBS", str(os.cpu_count() or 4)))
